@@ -133,6 +133,7 @@ type rawPeer struct {
 	end         *memconn.End
 	libIsClient bool
 	keySeq      uint32
+	sendMu      sync.Mutex // serialises the peer's own writers (frames stay atomic)
 
 	mu     sync.Mutex
 	cond   *sync.Cond
@@ -213,11 +214,15 @@ func (p *rawPeer) prep(f ref.Frame) ref.Frame {
 
 // send writes one frame with correct masking for the peer's role.
 func (p *rawPeer) send(f ref.Frame) error {
+	p.sendMu.Lock()
+	defer p.sendMu.Unlock()
 	_, err := p.end.Write(p.prep(f).Encode())
 	return err
 }
 
 func (p *rawPeer) sendRaw(b []byte) error {
+	p.sendMu.Lock()
+	defer p.sendMu.Unlock()
 	_, err := p.end.Write(b)
 	return err
 }
